@@ -22,7 +22,7 @@ LEVEL_TEXT = ("Seeded exploration restricted to reachable logs: the reporting fu
               "sequences would be input generation, not simulation, and is not done.")
 LEVEL_NOTE = "Trusted: the independent run-length encoder and brute-force filters in this module; reachable sequences only."
 PROBES = ["logs_encoded", "log_with_absence_flip", "log_suspended_tail", "log_reversed", "log_edited", "log_absence_removed", "extract_queries",
-          "extract_out_of_range", "log_appended_from_json", "extract_repeated_time", "plotly_rows_checked", "last_datetime_checked", "resource_absence_run"]
+          "extract_out_of_range", "log_appended_from_json", "extract_repeated_time", "asked_again_after_in_place_edit", "plotly_rows_checked", "last_datetime_checked", "resource_absence_run"]
 
 MARGINS = (1.0, 0.0, 0.5)
 
@@ -46,12 +46,19 @@ def gen(rng, tier):
     if rng.random() < 0.4:
         t_ = rng.randint(0, 10)
         spec["times"].append(rng.choice([[t_, t_], [t_ + 1, t_, t_ + 1], [t_, t_, t_ + 2]]))  # a time asked for twice, unsorted
+    if rng.random() < 0.3:
+        k_ = rng.randint(0, 8)
+        spec["ask_again"] = rng.choice([[["remove"], ["insert", [k_]]], [["insert", [k_]]], [["insert", [k_, k_ + 2]], ["remove"], ["insert", [k_ + 1]]]])
     spec["unit_s"] = rng.choice([60, 1, 3600, 86400, 90])
     spec["last"] = [2020 + rng.randint(0, 5), rng.randint(1, 12), rng.randint(1, 28), rng.randint(0, 23), rng.randint(0, 59)]
     return spec
 
 
 def extra_candidates(spec):
+    if spec.get("ask_again"):
+        c = dict(spec)
+        c.pop("ask_again")
+        yield c
     if spec.get("variant") != "forward":
         c = dict(spec)
         c["variant"] = "forward"
@@ -149,126 +156,144 @@ def run(spec):
         return res
     if int(p.status) == -1:
         res.count("log_suspended_tail")
-    ix = D.index(p)
-    init, unit = p.init_datetime, p.unit_timedelta
-    nontrivial = False
-    T = [("ready", D.READY), ("working", D.WORKING)]
-    R = [("ready", D.FREE), ("working", D.R_WORKING), ("absence", D.ABSENCE)]
-    for kind, objs, ns in (("task", ix.tasks, T), ("component", ix.comps, T), ("worker", ix.workers, R), ("facility", ix.facs, R)):
-        for o_ in objs:
-            seq = [int(s) for s in o_.state_record_list]
-            if n_runs(seq) >= 3:
-                nontrivial = True
-            if kind in ("task", "component") and any(seq[i] == D.WORKING and seq[i + 1] == D.READY for i in range(len(seq) - 1)):
-                res.count("log_with_absence_flip")
-            if kind in ("worker", "facility") and D.ABSENCE in seq:
-                res.count("resource_absence_run")
-            check_object(res, kind, o_, seq, ns, init, unit, tag)
-    # plotly rows: index k -> init + k*unit
-    for margin in (1.0, 0.5):
-        for kind, objs in (("task", ix.tasks), ("component", ix.comps)):
+    nt = [False]
+
+    def report(tag):
+        ix = D.index(p)
+        init, unit = p.init_datetime, p.unit_timedelta
+        T = [("ready", D.READY), ("working", D.WORKING)]
+        R = [("ready", D.FREE), ("working", D.R_WORKING), ("absence", D.ABSENCE)]
+        for kind, objs, ns in (("task", ix.tasks, T), ("component", ix.comps, T), ("worker", ix.workers, R), ("facility", ix.facs, R)):
             for o_ in objs:
                 seq = [int(s) for s in o_.state_record_list]
-                oc = D.call(lambda: o_.create_data_for_gantt_plotly(init, unit, finish_margin=margin, view_ready=True))
-                if not oc.ok:
-                    res.add("plotly", "C19.plotly_raises.%s" % kind, "create_data_for_gantt_plotly of %s %s raised %s" % (kind, o_.ID, oc.msg), None)
-                    continue
-                rows = sorted((r["Start"], r["Finish"], r["State"]) for r in oc.value)
-                exp = []
-                for nm, stv in (("READY", D.READY), ("WORKING", D.WORKING)):
-                    for (a, ln) in expect(seq, stv, margin):
-                        exp.append((fmt(init + a * unit), fmt(init + (a + ln) * unit), nm))
-                res.count("plotly_rows_checked")
-                if rows != sorted(exp):
-                    res.add("plotly", "C19.plotly_rows.%s" % kind, "%s %s margin %r: chart rows %s, expected %s for log %s" % (kind, o_.ID, margin, rows, sorted(exp), seq), None)
-        for gkind, groups, members in (("team", ix.teams, "worker_list"), ("workplace", ix.wps, "facility_list")):
-            for g in groups:
-                oc = D.call(lambda: g.create_data_for_gantt_plotly(init, unit, finish_margin=margin, view_ready=True, view_absence=True))
-                if not oc.ok:
-                    res.add("plotly", "C19.plotly_raises.%s" % gkind, "create_data_for_gantt_plotly of %s %s raised %s" % (gkind, g.ID, oc.msg), None)
-                    continue
-                rows = sorted((r["Task"], r["Start"], r["Finish"], r["State"]) for r in oc.value)
-                exp = []
-                for r_ in getattr(g, members):
-                    seq = [int(s) for s in r_.state_record_list]
-                    for nm, stv in (("READY", D.FREE), ("ABSENCE", D.ABSENCE), ("WORKING", D.R_WORKING)):
-                        for (a, ln) in expect(seq, stv, margin):
-                            exp.append((g.name + ": " + r_.name, fmt(init + a * unit), fmt(init + (a + ln) * unit), nm))
-                res.count("plotly_rows_checked")
-                if rows != sorted(exp):
-                    res.add("plotly", "C19.plotly_rows.%s" % gkind, "%s %s margin %r: chart rows %s, expected %s" % (gkind, g.ID, margin, rows[:6], sorted(exp)[:6]), None)
-    # the same rows requested through the containers, with every combination of the view flags
-    def rows_of(seq, nm_states, label, margin):
-        out = []
-        for nm, stv in nm_states:
-            for (a, ln) in expect(seq, stv, margin):
-                out.append((label, fmt(init + a * unit), fmt(init + (a + ln) * unit), nm))
-        return out
-
-    for (vr, va) in ((True, False), (False, True), (False, False), (True, True)):
-        margin = 1.0
-        oc = D.call(lambda: p.organization.create_data_for_gantt_plotly(init, unit, finish_margin=margin, view_ready=vr, view_absence=va))
-        if oc.ok:
-            rows = sorted((r["Task"], r["Start"], r["Finish"], r["State"]) for r in oc.value)
-            exp = []
-            for g, members in [(g, g.worker_list) for g in ix.teams] + [(g, g.facility_list) for g in ix.wps]:
-                for r_ in members:
-                    seq = [int(s) for s in r_.state_record_list]
-                    kinds = [("WORKING", D.R_WORKING)] + ([("READY", D.FREE)] if vr else []) + ([("ABSENCE", D.ABSENCE)] if va else [])
-                    exp.extend(rows_of(seq, kinds, g.name + ": " + r_.name, margin))
-            res.count("plotly_rows_checked")
-            if rows != sorted(exp):
-                res.add("plotly", "C19.plotly_rows.organization.view_ready_%s.view_absence_%s" % (vr, va),
-                        "organization.create_data_for_gantt_plotly(view_ready=%s, view_absence=%s): %d rows, expected %d from the logs; first difference %s"
-                        % (vr, va, len(rows), len(exp), next((x for x in sorted(set(rows) ^ set(exp))), None)), None)
-        if not va:
-            for owner, objs, typ in ((p.workflow, ix.tasks, "Task"), (p.product, ix.comps, "Component")):
-                oc = D.call(lambda: owner.create_data_for_gantt_plotly(init, unit, finish_margin=margin, view_ready=vr))
-                if oc.ok:
-                    rows = sorted((r["Task"], r["Start"], r["Finish"], r["State"]) for r in oc.value)
+                if n_runs(seq) >= 3:
+                    nt[0] = True
+                if kind in ("task", "component") and any(seq[i] == D.WORKING and seq[i + 1] == D.READY for i in range(len(seq) - 1)):
+                    res.count("log_with_absence_flip")
+                if kind in ("worker", "facility") and D.ABSENCE in seq:
+                    res.count("resource_absence_run")
+                check_object(res, kind, o_, seq, ns, init, unit, tag)
+        # plotly rows: index k -> init + k*unit
+        for margin in (1.0, 0.5):
+            for kind, objs in (("task", ix.tasks), ("component", ix.comps)):
+                for o_ in objs:
+                    seq = [int(s) for s in o_.state_record_list]
+                    oc = D.call(lambda: o_.create_data_for_gantt_plotly(init, unit, finish_margin=margin, view_ready=True))
+                    if not oc.ok:
+                        res.add("plotly", "C19.plotly_raises.%s" % kind, "create_data_for_gantt_plotly of %s %s raised %s" % (kind, o_.ID, oc.msg), None)
+                        continue
+                    rows = sorted((r["Start"], r["Finish"], r["State"]) for r in oc.value)
                     exp = []
-                    for o_ in objs:
-                        seq = [int(s) for s in o_.state_record_list]
-                        kinds = [("WORKING", D.WORKING)] + ([("READY", D.READY)] if vr else [])
-                        exp.extend(rows_of(seq, kinds, o_.name, margin))
+                    for nm, stv in (("READY", D.READY), ("WORKING", D.WORKING)):
+                        for (a, ln) in expect(seq, stv, margin):
+                            exp.append((fmt(init + a * unit), fmt(init + (a + ln) * unit), nm))
                     res.count("plotly_rows_checked")
                     if rows != sorted(exp):
-                        res.add("plotly", "C19.plotly_rows.%s_container.view_ready_%s" % (typ.lower(), vr),
-                                "%s container create_data_for_gantt_plotly(view_ready=%s): rows differ from the logs; first difference %s"
-                                % (typ, vr, next((x for x in sorted(set(rows) ^ set(exp))), None)), None)
-    # extract_* queries
-    n = len(p.cost_list)
-    for times in spec.get("times", []):
-        if any(t >= n for t in times):
-            res.count("extract_out_of_range")
-        if len(set(times)) != len(times):
-            res.count("extract_repeated_time")
-        for nm, stv in (("none", D.NONE), ("ready", D.READY), ("working", D.WORKING), ("finished", D.FINISHED)):
-            for kind, owner, objs, fn in (("task", p.workflow, ix.tasks, "extract_%s_task_list" % nm),
-                                          ("component", p.product, ix.comps, "extract_%s_component_list" % nm)):
-                oc = D.call(lambda: getattr(owner, fn)(list(times)))
-                res.count("extract_queries")
-                if not oc.ok:
-                    res.add("extract", "C19.extract_raises.%s" % fn, "%s(%s) raised %s" % (fn, times, oc.msg), None)
-                    continue
-                got = sorted(x.ID for x in oc.value)
-                exp = sorted(x.ID for x in objs if all(t < len(x.state_record_list) and int(x.state_record_list[t]) == stv for t in times))
-                if got != exp or len(oc.value) != len(set(id(x) for x in oc.value)):
-                    res.add("extract", "C19.extract_wrong.%s" % fn, "%s(%s) returned %s, the logs say %s" % (fn, times, got, exp), None)
-        for nm, stv in (("free", D.FREE), ("working", D.R_WORKING)):
-            for gkind, groups, members, fn in (("team", ix.teams, "worker_list", "extract_%s_worker_list" % nm),
-                                               ("workplace", ix.wps, "facility_list", "extract_%s_facility_list" % nm)):
+                        res.add("plotly", "C19.plotly_rows.%s" % kind, "%s %s margin %r: chart rows %s, expected %s for log %s" % (kind, o_.ID, margin, rows, sorted(exp), seq), None)
+            for gkind, groups, members in (("team", ix.teams, "worker_list"), ("workplace", ix.wps, "facility_list")):
                 for g in groups:
-                    oc = D.call(lambda: getattr(g, fn)(list(times)))
+                    oc = D.call(lambda: g.create_data_for_gantt_plotly(init, unit, finish_margin=margin, view_ready=True, view_absence=True))
+                    if not oc.ok:
+                        res.add("plotly", "C19.plotly_raises.%s" % gkind, "create_data_for_gantt_plotly of %s %s raised %s" % (gkind, g.ID, oc.msg), None)
+                        continue
+                    rows = sorted((r["Task"], r["Start"], r["Finish"], r["State"]) for r in oc.value)
+                    exp = []
+                    for r_ in getattr(g, members):
+                        seq = [int(s) for s in r_.state_record_list]
+                        for nm, stv in (("READY", D.FREE), ("ABSENCE", D.ABSENCE), ("WORKING", D.R_WORKING)):
+                            for (a, ln) in expect(seq, stv, margin):
+                                exp.append((g.name + ": " + r_.name, fmt(init + a * unit), fmt(init + (a + ln) * unit), nm))
+                    res.count("plotly_rows_checked")
+                    if rows != sorted(exp):
+                        res.add("plotly", "C19.plotly_rows.%s" % gkind, "%s %s margin %r: chart rows %s, expected %s" % (gkind, g.ID, margin, rows[:6], sorted(exp)[:6]), None)
+        # the same rows requested through the containers, with every combination of the view flags
+        def rows_of(seq, nm_states, label, margin):
+            out = []
+            for nm, stv in nm_states:
+                for (a, ln) in expect(seq, stv, margin):
+                    out.append((label, fmt(init + a * unit), fmt(init + (a + ln) * unit), nm))
+            return out
+
+        for (vr, va) in ((True, False), (False, True), (False, False), (True, True)):
+            margin = 1.0
+            oc = D.call(lambda: p.organization.create_data_for_gantt_plotly(init, unit, finish_margin=margin, view_ready=vr, view_absence=va))
+            if oc.ok:
+                rows = sorted((r["Task"], r["Start"], r["Finish"], r["State"]) for r in oc.value)
+                exp = []
+                for g, members in [(g, g.worker_list) for g in ix.teams] + [(g, g.facility_list) for g in ix.wps]:
+                    for r_ in members:
+                        seq = [int(s) for s in r_.state_record_list]
+                        kinds = [("WORKING", D.R_WORKING)] + ([("READY", D.FREE)] if vr else []) + ([("ABSENCE", D.ABSENCE)] if va else [])
+                        exp.extend(rows_of(seq, kinds, g.name + ": " + r_.name, margin))
+                res.count("plotly_rows_checked")
+                if rows != sorted(exp):
+                    res.add("plotly", "C19.plotly_rows.organization.view_ready_%s.view_absence_%s" % (vr, va),
+                            "organization.create_data_for_gantt_plotly(view_ready=%s, view_absence=%s): %d rows, expected %d from the logs; first difference %s"
+                            % (vr, va, len(rows), len(exp), next((x for x in sorted(set(rows) ^ set(exp))), None)), None)
+            if not va:
+                for owner, objs, typ in ((p.workflow, ix.tasks, "Task"), (p.product, ix.comps, "Component")):
+                    oc = D.call(lambda: owner.create_data_for_gantt_plotly(init, unit, finish_margin=margin, view_ready=vr))
+                    if oc.ok:
+                        rows = sorted((r["Task"], r["Start"], r["Finish"], r["State"]) for r in oc.value)
+                        exp = []
+                        for o_ in objs:
+                            seq = [int(s) for s in o_.state_record_list]
+                            kinds = [("WORKING", D.WORKING)] + ([("READY", D.READY)] if vr else [])
+                            exp.extend(rows_of(seq, kinds, o_.name, margin))
+                        res.count("plotly_rows_checked")
+                        if rows != sorted(exp):
+                            res.add("plotly", "C19.plotly_rows.%s_container.view_ready_%s" % (typ.lower(), vr),
+                                    "%s container create_data_for_gantt_plotly(view_ready=%s): rows differ from the logs; first difference %s"
+                                    % (typ, vr, next((x for x in sorted(set(rows) ^ set(exp))), None)), None)
+        # extract_* queries
+        n = len(p.cost_list)
+        for times in spec.get("times", []):
+            if any(t >= n for t in times):
+                res.count("extract_out_of_range")
+            if len(set(times)) != len(times):
+                res.count("extract_repeated_time")
+            for nm, stv in (("none", D.NONE), ("ready", D.READY), ("working", D.WORKING), ("finished", D.FINISHED)):
+                for kind, owner, objs, fn in (("task", p.workflow, ix.tasks, "extract_%s_task_list" % nm),
+                                              ("component", p.product, ix.comps, "extract_%s_component_list" % nm)):
+                    oc = D.call(lambda: getattr(owner, fn)(list(times)))
                     res.count("extract_queries")
                     if not oc.ok:
                         res.add("extract", "C19.extract_raises.%s" % fn, "%s(%s) raised %s" % (fn, times, oc.msg), None)
                         continue
                     got = sorted(x.ID for x in oc.value)
-                    exp = sorted(x.ID for x in getattr(g, members)
-                                 if all(t < len(x.state_record_list) and int(x.state_record_list[t]) == stv for t in times))
-                    if got != exp:
-                        res.add("extract", "C19.extract_wrong.%s" % fn, "%s(%s) of %s returned %s, the logs say %s" % (fn, times, g.ID, got, exp), None)
+                    exp = sorted(x.ID for x in objs if all(t < len(x.state_record_list) and int(x.state_record_list[t]) == stv for t in times))
+                    if got != exp or len(oc.value) != len(set(id(x) for x in oc.value)):
+                        res.add("extract", "C19.extract_wrong.%s" % fn, "%s(%s) returned %s, the logs say %s" % (fn, times, got, exp), None)
+            for nm, stv in (("free", D.FREE), ("working", D.R_WORKING)):
+                for gkind, groups, members, fn in (("team", ix.teams, "worker_list", "extract_%s_worker_list" % nm),
+                                                   ("workplace", ix.wps, "facility_list", "extract_%s_facility_list" % nm)):
+                    for g in groups:
+                        oc = D.call(lambda: getattr(g, fn)(list(times)))
+                        res.count("extract_queries")
+                        if not oc.ok:
+                            res.add("extract", "C19.extract_raises.%s" % fn, "%s(%s) raised %s" % (fn, times, oc.msg), None)
+                            continue
+                        got = sorted(x.ID for x in oc.value)
+                        exp = sorted(x.ID for x in getattr(g, members)
+                                     if all(t < len(x.state_record_list) and int(x.state_record_list[t]) == stv for t in times))
+                        if got != exp:
+                            res.add("extract", "C19.extract_wrong.%s" % fn, "%s(%s) of %s returned %s, the logs say %s" % (fn, times, g.ID, got, exp), None)
+
+    report("")
+    if spec.get("ask_again") and len(p.cost_list) > 0:
+        # the same questions again after the logs were changed in place (possibly to the same length): the answers are
+        # functions of what the logs contain now
+        for op in spec["ask_again"]:
+            if op[0] == "remove":
+                D.call(lambda: p.remove_absence_time_list())
+            else:
+                D.call(lambda: p.insert_absence_time_list(list(op[1])))
+        res.count("asked_again_after_in_place_edit")
+        report(".second_request")
+    nontrivial = nt[0]
+    n = len(p.cost_list)
+    ix = D.index(p)
+    init, unit = p.init_datetime, p.unit_timedelta
     # set_last_datetime
     y, mo, d_, h, mi = spec.get("last", [2021, 1, 1, 0, 0])
     last = datetime.datetime(y, mo, d_, h, mi, 0)
